@@ -190,7 +190,8 @@ def FileSt.add (P : Profile) (f : FileSt) (m : Msg) (g : Globals) : Option (File
     | some i =>
       let c := P.containers.getD i default
       let (slots, g') := containerAdd P c f.slots m g
-      some ({ f with slots := slots }, g')
+      let xl := if (slotFor c m.num).isSome && expandSet.contains m.num then f.xlog ++ [(m, g)] else f.xlog
+      some ({ f with slots := slots, xlog := xl }, g')
 
 /-! ### canonical dump -/
 
